@@ -1319,6 +1319,13 @@ def run_format(spec, rec):
     for i in range(spec["n"]):
         unit = unit_pool[i % len(unit_pool)] if i < 2 * len(unit_pool) else rng.choice(unit_pool)
         v = rand_value(rng) if rng.random() < 0.6 else mod_value(rng)
+        extreme = i % 8 == 5
+        if extreme:
+            # three-digit decimal exponents (e+100 ... e+135, e-100 ... e-135) in the rendering; only
+            # with scientific / general / default magnitude specs and without '#', so that neither
+            # to_compact nor fixed-point digits strings nor `uncertainties` leave the float range
+            v = rng.uniform(1, 10) * 10.0 ** (rng.choice((-1, 1)) * rng.randint(100, 135)) * rng.choice((1, 1, -1))
+            rec.count("format_three_digit_exponent_values")
         r = rng.random()
         e = 0.0 if r < 0.05 else (abs(v) * 10 ** rng.uniform(-7, 1.5))
         if rng.random() < 0.15:
@@ -1332,6 +1339,8 @@ def run_format(spec, rec):
             continue
         mag = m.magnitude
         for ms in MAGSPECS:
+            if extreme and ("%" in ms or "f" in ms):
+                continue
             try:
                 format(mag, ms)
             except Exception:  # noqa: BLE001
@@ -1339,7 +1348,7 @@ def run_format(spec, rec):
                 continue
             for flag in FLAGS:
                 for mod in MODS:
-                    if "#" in mod and (unit in ("", "degree_Celsius", "radian", "percent") or v <= 0):
+                    if "#" in mod and (unit in ("", "degree_Celsius", "radian", "percent") or v <= 0 or extreme):
                         continue
                     order = rng.random() < 0.5
                     fl = (mod + flag) if order else (flag + mod)
@@ -1411,6 +1420,11 @@ def run_format(spec, rec):
                     # slack: uncertainties scales by 10**exp in floats before rounding
                     q = max(rd["qn"], rd["qs"]) if rd["s"] != 0 else rd["qn"]
                     slack = (abs(tn) + abs(ts)) * F(1, 10 ** 12)
+                    if not rd["exp"] and max(abs(rd["n"]), abs(rd["s"])) >= 10 ** 16 and q < 10:
+                        # fixed-point digits of a float beyond 2**53 ("99999999999999991611392"): the
+                        # trailing digits are float noise, the rounding quantum cannot be read off them
+                        rec.count("format_skipped_float_noise_digits")
+                        continue
                     if abs(rd["n"] - tn) * 2 > q + slack:
                         rec.violation("format-nominal", dict(wit, out=out, shown=float(rd["n"]),
                                                              have=float(tn)), **fields)
@@ -1422,8 +1436,10 @@ def run_format(spec, rec):
                         continue
                     rec.count("format_rendered_ok")
                     # ---- D / C renderings are themselves textual notations: parse them back
+                    # (not beyond 1e+-140: `uncertainties` squares standard deviations, which leaves the
+                    # float range there - the parsed text comes back with sigma 0)
                     if fam in ("D", "C") and not rd["percent"] and unit != "degree_Celsius" \
-                            and rng.random() < 0.5:
+                            and 1e-140 < abs(v) < 1e140 and rng.random() < 0.5:
                         pf = {"form": rd["form"] + ("-wrapped" if rd["wrapped"] else ""),
                               "exp": ("E+" if "E" in out.split(" ")[0] else "e+0") if rd["exp"] else "none",
                               "sign": "minus" if rd["n"] < 0 else "none",
